@@ -470,6 +470,49 @@ func longTracks() {
 	}
 }
 
+// longMaps: hundreds and thousands of tempo events (a conversion that keeps
+// a running sum, a cache or an index over the changes sees every count around
+// 64, 256, 1000 and 5000), gaps and tempi cycling, queried at sixty places
+// between the first and behind the last change.
+func longMaps(part, parts int) {
+	gapsC := []uint32{1, 7, 480, 3, 0, 96}
+	tempC := []uint32{500000, 250000, 499999, 1000000, 333333, 500000}
+	k := 0
+	for _, n := range []int{50, 63, 64, 65, 255, 256, 257, 1000, 1023, 1024, 1025, 5000} {
+		for _, res := range []uint16{960, 96, 32767} {
+			for _, shift := range []int{0, 1, 4} {
+				k++
+				if k%parts != part {
+					continue
+				}
+				var evs []tev
+				var at int64
+				var ticks []int64
+				for i := 0; i < n; i++ {
+					g := gapsC[(i+shift)%len(gapsC)]
+					evs = append(evs, tev{g, tempC[(i*5+shift)%len(tempC)]})
+					at += int64(g)
+					ticks = append(ticks, at)
+				}
+				var qs []int64
+				for j := 0; j < 20; j++ {
+					t := ticks[(len(ticks)-1)*j/19]
+					qs = append(qs, t-1, t, t+1)
+				}
+				qs = append(qs, at+int64(res)*100)
+				var pos []int64
+				for _, q := range qs {
+					if q >= 0 {
+						pos = append(pos, q)
+					}
+				}
+				judgeLight(res, evs, pos, "long-map")
+				ctx.Add("long_maps", 1)
+			}
+		}
+	}
+}
+
 // tempoValues: the tempo payload swept over the 24-bit range (thorough: every
 // value; quick: every 61st plus the neighbourhood of every power of two and of
 // the common tempi), as a single tempo event queried far out (an error of a
@@ -559,6 +602,7 @@ func main() {
 		}
 	})
 	ctx.Jobs("tempo-values", 16, func(j int) { tempoValues(j, 16) })
+	ctx.Jobs("long-maps", 16, func(j int) { longMaps(j, 16) })
 	ctx.Sample(map[string]interface{}{"resolution": 480, "tempo_events(gap,us)": [][2]int{{480, 250000}, {0, 500001}, {1, 16777215}}, "queries": "0, every tempo tick +-2, 2^20, 2^31-1"})
 	ctx.Guard(ctx.NontrivialCount() > 1000, "too few multi-segment queries")
 	ctx.Finish("all tempo maps of 0..3/4 tempo events over gaps {0,1,479,480,100000} x microseconds-per-quarter {0,1,250000,500000,500001,0xFFFFFF} for 6 resolutions, queried at 0, every tempo tick +-2, 2^20, 2^31-1 within a 100-day horizon against the exact rational integral; every 61st (thorough: every) 24-bit tempo value as a single event queried far out and as two events with neighbouring values; iterator times; Ticks(Duration(n)) for boundary n and n in 0..200000 on four (resolution, tempo) pairs; non-trivial = queries on maps with at least two tempo events")
